@@ -1,5 +1,5 @@
 From Coq Require Import String List NArith.
-From JS Require Import Base.Wire Extract.RunOMap Extract.RunNum Extract.RunGuess.
+From JS Require Import Base.Wire Extract.RunOMap Extract.RunNum Extract.RunGuess Extract.RunJson.
 Import ListNotations.
 
 (* one case line -> one result line; the first token names the model *)
@@ -10,6 +10,7 @@ Definition dispatch (line : bytes) : bytes :=
     else if beqb cmd B"sset" then run_sset args
     else if beqb cmd B"num" then run_num args
     else if beqb cmd B"guess" then run_guess args
+    else if beqb cmd B"json" then run_json args
     else bad_case
   | [] => bad_case
   end.
